@@ -24,22 +24,22 @@ func init() { netsync.DisableLog() }
 // stubNotifier is the netsync.PeerNotifier of a node without peers.
 type stubNotifier struct{}
 
-func (stubNotifier) AnnounceNewTransactions([]*btcmempool.TxDesc)            {}
-func (stubNotifier) UpdatePeerHeights(*chainhash.Hash, int32, *peer.Peer)    {}
-func (stubNotifier) RelayInventory(*wire.InvVect, interface{})               {}
-func (stubNotifier) TransactionConfirmed(*btcutil.Tx)                        {}
+func (stubNotifier) AnnounceNewTransactions([]*btcmempool.TxDesc)         {}
+func (stubNotifier) UpdatePeerHeights(*chainhash.Hash, int32, *peer.Peer) {}
+func (stubNotifier) RelayInventory(*wire.InvVect, interface{})            {}
+func (stubNotifier) TransactionConfirmed(*btcutil.Tx)                     {}
 
 // Env is one real node: BlockChain on ffldb, TxPool, SyncManager.
 type Env struct {
-	C      *Concrete
-	dir    string
-	db     database.DB
-	Chain  *blockchain.BlockChain
-	Pool   *btcmempool.TxPool
-	SM     *netsync.SyncManager
-	TS     blockchain.MedianTimeSource
-	Sig    *txscript.SigCache
-	Hash   *txscript.HashCache
+	C     *Concrete
+	dir   string
+	db    database.DB
+	Chain *blockchain.BlockChain
+	Pool  *btcmempool.TxPool
+	SM    *netsync.SyncManager
+	TS    blockchain.MedianTimeSource
+	Sig   *txscript.SigCache
+	Hash  *txscript.HashCache
 	// slot -> block built in this environment
 	Blocks map[int]*btcutil.Block
 	// every block handed to the chain, in order (for clones)
